@@ -3,7 +3,7 @@
 //! usage: mzharness <prop> <tier> <seed> <transcript> <result.json> [replay-file]
 mod rng; mod plain; mod sgen; mod tx;
 mod comp; mod dec; mod eps;
-mod c01; mod c02; mod c03; mod c08; mod c09; mod c10; mod c11; mod c12; mod c15; mod c16;
+mod c01; mod c02; mod c03; mod c08; mod c13; mod c14; mod c17; mod c18; mod c19; mod c20; mod c09; mod c10; mod c11; mod c12; mod c15; mod c16;
 
 use tx::Ctx;
 
@@ -37,7 +37,13 @@ fn main() {
         "C10" => c10::run(&mut ctx),
         "C11" => c11::run(&mut ctx),
         "C12" => c12::run(&mut ctx),
+        "C13" => c13::run(&mut ctx),
+        "C14" => c14::run(&mut ctx),
         "C15" => c15::run(&mut ctx),
+        "C17" => c17::run(&mut ctx),
+        "C18" => c18::run(&mut ctx),
+        "C19" => c19::run(&mut ctx),
+        "C20" => c20::run(&mut ctx),
         "C16" => c16::run(&mut ctx),
         p => { eprintln!("unknown property {}", p); std::process::exit(2); }
     }
